@@ -26,6 +26,11 @@ The ORACLE looks at the implementation's line only and uses its own definitions 
   * every successful output must be valid TOML (the harness re-parses it; this module re-parses a sample
     with python's own `tomllib`) and decode back to an `sval_eq` value through every matching decoder.
 
+Duplicate-key family (kind `dup-key`, gen_serde.dup_key_case; OUTSIDE has_type, so no theorem speaks about it): a map
+written from a list of pairs that repeats a key (an ordered multi-map through `collect_map`, a struct field colliding
+with a `#[serde(flatten)]` map).  Every route must keep the LAST value of the repeated key (IndexMap::insert /
+BTreeMap::insert) and read back the last-wins map (gen_serde.last_wins).
+
 Outside has_type (counted in the evidence as `excluded_types`, never generated into cases):
 `Option<Option<_>>` and maps whose values are Options (a `None` map value is dropped by design and cannot be
 told from an absent entry — coordinator decision S4).  Maps whose stringified keys collide are not generated
@@ -64,11 +69,13 @@ THEOREMS = [
 RULE = ("random types of depth <= 5 over the whole type language (structs, maps with string / unit-variant / newtype keys, "
         "sequences, tuples, newtypes, tuple structs, options, all four variant kinds, every integer width, f32/f64, chars, "
         "strings, date-times, untyped toml::Value leaves, unit / unit structs / non-string keys / 128-bit integers as unsupported "
-        "shapes) x adversarial values; each pair through all 7 encoding routes and back; non-trivial = type depth >= 2")
+        "shapes) x adversarial values; each pair through all 7 encoding routes and back; plus the duplicate-key family (maps written "
+        "from pair lists that repeat a key: all routes keep the last value); non-trivial = type depth >= 2")
 ASSUMPTIONS = [
     "serde_derive / serde's std impls (which Serializer / Deserializer method is called for each shape, Option fields skipped on None, missing field => None, first-match field and variant identifiers) are written into coq/Model/Ser.v, De.v as their functional spec; the same protocol is the runtime-typed driver `dynserde`, checked on every run against ~36 families of real derived types (command `fidelity`)",
     "has_type excludes: maps whose value type is an Option (S4), maps whose stringified keys collide, structs named like the private tunnels, duplicate field / variant names, date-times outside the ranges the date-time parser accepts (C12 in_range); Option<Option<_>> is NOT excluded by the Coq theorems (the generator excludes it)",
     "128-bit integers count as a documented unsupported shape (always refused, never silently altered)",
+    "the duplicate-key family (a key repeated in one serialized map) is outside has_type: it is judged by the oracle (last value wins on every route) and tied to the model (whose tables are insert-replace lists), but no theorem speaks about it",
     "`v as f32` (hardware round-to-nearest-even) is given by its functional spec Model/De.v narrow32; indexmap / BTreeMap by ordered association lists with insert-replace / sorted-insert",
     "the Coq universe has no untyped toml::Value leaf and no Spanned<T>: such cases are run through the oracle only (model prints `-`)",
     "deserialization error messages are not modelled (one error value); reading an integer as a float and a date-time as a map/struct are marked unmodelled (no serializer output has these shapes at those types)",
@@ -118,6 +125,11 @@ def gen_cases(rng, tier):
         ty = gen.root_ty() if i % 5 else gen.ty()
         for _ in range(per):
             out.append(ser_case(ty, gen.value(ty), "random" if gen is g else "random-supported"))
+    # the duplicate-key family (outside has_type): a map written from a pair list that repeats a key; every route must
+    # keep the LAST value of a repeated key and read back the last-wins map
+    for _ in range(400 if tier == "quick" else 6000):
+        ty, v = G.dup_key_case(rng)
+        out.append(ser_case(ty, v, "dup-key"))
     # how often the exclusion bites on an unrestricted generator (evidence only)
     STATS["excluded_types"] = sum(1 for _ in range(2000) if G.excluded_type(gx.ty()))
     STATS["excluded_types_out_of"] = 2000
@@ -203,6 +215,8 @@ def judge(case, line):
     ty, v = case.meta["ty"], case.meta["v"]
     res = parse_ser_line(line)
     out = []
+    # what the value denotes: for the duplicate-key family the last value of a repeated key (elsewhere: v itself)
+    v_denoted = G.last_wins(v) if case.meta.get("kind") == "dup-key" else v
     private = G.mentions_private(ty, v)
     for r in ROUTES:
         x = res.get(r)
@@ -236,12 +250,14 @@ def judge(case, line):
             out.append(("route %s: no round trip reported" % r, None))
         for tag, rt in rts:
             if rt == "=":
+                if v_denoted is not v and G.has_dup_keys(v):
+                    out.append(("route %s: the value read back (%s) still has the repeated key" % (r, tag), cls))
                 continue
             if rt[0] == "ERR":
                 out.append(("route %s succeeded but its output does not decode back (%s): %s" % (r, tag, rt[1][:200]), cls))
             else:
                 back = G.parse_val(rt[1])
-                if not G.sval_eq(v, back):
+                if not G.sval_eq(v_denoted, back):
                     out.append(("route %s succeeded but the value read back (%s) differs: %s" % (r, tag, rt[1][:300]), cls))
                 else:
                     STATS["eq-modulo-nan-or-order"] += 1
